@@ -74,8 +74,22 @@ def c01(rec, st):
         if len(vals) > 1:
             out.append(Viol("C01", "b", "near-fixed variable %d took %d different values" % (i, len(vals)),
                             key="nearfixed"))
-    # d: by construction (probe): the point handed to Problem.__call__ is inside the box up to rounding
+    # d: by construction (probe): the box the solver works in is the user's box (free variables; the unit box
+    # under scaling), so that "inside the solver's box" means "inside the user's bounds"
     ps = rec.probe
+    if ps is not None and ps.pbinfo is not None and ps.pbinfo["feasible"]:
+        info = ps.pbinfo
+        free = [i for i in range(n) if not fm[i]]
+        if len(free) == info["xl"].size:
+            scaled = bool(np.any(info["factor"] != 1.0) or np.any(info["shift"] != 0.0))
+            want_l = [-1.0] * len(free) if scaled else [lb[i] for i in free]
+            want_u = [1.0] * len(free) if scaled else [ub[i] for i in free]
+            st["c01.d_box_checked"] += 1
+            if [float(v) for v in info["xl"]] != want_l or [float(v) for v in info["xu"]] != want_u:
+                out.append(Viol("C01", "d", "the solver works in the box [%r, %r] but the user's bounds on the free "
+                                "variables are [%r, %r]" % (info["xl"].tolist(), info["xu"].tolist(), want_l, want_u),
+                                key="internal_box"))
+    # ... and the point handed to Problem.__call__ is inside that box up to rounding
     if ps is not None and ps.pbinfo is not None:
         for k, ev in enumerate(ps.evals):
             if "outside" in ev:
@@ -339,9 +353,17 @@ def c05(rec, st):
             if ocalls > maxfev:
                 out.append(Viol("C05", "a", "%d objective calls with maxfev=%d" % (ocalls, maxfev),
                                 key="over_budget"))
+    # a user function called at a point that is not one of the counted evaluations is an evaluation too
+    pts = set(e["x"] for e in rec.events if e["k"] in ("obj", "con") and not e.get("probe"))
+    if maxfev is not None and len(pts) > maxfev:
+        out.append(Viol("C05", "a", "user functions were called at %d distinct points with maxfev=%d" % (len(pts), maxfev),
+                        key="over_budget_points"))
     if rec.res is None:
         return out
     res = rec.res
+    if isinstance(res["nfev"], (int, np.integer)) and len(pts) > res["nfev"] and not out:
+        out.append(Viol("C05", "b", "user functions were called at %d distinct points but nfev=%r" % (len(pts), res["nfev"]),
+                        key="nfev_points"))
     if res["nfev"] != nev:
         out.append(Viol("C05", "b", "nfev=%r but the problem was evaluated at %d points" % (res["nfev"], nev),
                         key="nfev" + ("_noobj" if stmt.get("obj") is None else "")))
@@ -393,6 +415,17 @@ def c06(rec, st):
     has_obj = stmt.get("obj") is not None
     groups, strays = rec.evaluations()
     st["c06.groups"] += len(groups)
+    jac_calls = [e for e in rec.events if e["k"] == "jac" and not e.get("probe")]
+    if jac_calls:
+        out.append(Viol("C06", "a", "the user's Jacobian (documented as disregarded) was called %d times" % len(jac_calls),
+                        key="jacobian_called"))
+    for j, obj in sorted((getattr(rec.ctx, "con_objs", None) or {}).items()):
+        seen = sum(1 for e in rec.events if e["k"] == "con" and e["j"] == j)
+        st["c06.stateful_objects_checked"] += 1
+        if obj.count != seen:
+            out.append(Viol("C06", "c", "constraint function %d is a method of a user object that received %d calls while %d "
+                            "evaluations of it were made: they landed on a copy of the object" % (j, obj.count, seen),
+                            key="foreign_object"))
     fn_strays = [e for e in strays if e["k"] in ("obj", "con")]
     if fn_strays:
         e = fn_strays[0]
